@@ -41,10 +41,8 @@ fn('dsplib::hilbert', H, sig='(const dsplib::arr_real &, int)', key='hilbert(x,n
 HF_OK = 'And(_fir._h.len >= 3, tmod(_fir._h.len, 2) == 1, _fir._d.len == _fir._h.len - 1, _d._buffer.len == tdiv(_fir._h.len, 2))'
 inline_fn('dsplib::FirFilter<double>::FirFilter', 'dsplib::Delay<double>::Delay', 'dsplib::FirFilter<double>::coeffs')
 
-fn('dsplib::firtype', 'lib/fir.cpp', serves=['C11'], trusted=True, pure=True, notes='assumed: classification of linear-phase FIR types',
-   ensures=[('antisymmetric_odd_length', 'Implies(result == 3, tmod(h.len, 2) == 1)')])
-fn('dsplib::HilbertFilter::design_fir', H, serves=['C14'], trusted=True, pure=True,
-   requires=[('size', 'flen >= 3')], notes='assumed: windowed frequency-sampling design returns M = flen (odd) or flen+1 (even) taps',
+fn('dsplib::HilbertFilter::design_fir', H, serves=['C14', 'C05'], pure=True, extra_env=ENV, may_throw=True,
+   requires=[('size', 'And(flen >= 3, flen <= 10000)'), ('band', 'And(fs == 1, f1 > 0, f1 <= 0.2)')],
    ensures=[('length', 'result.len == If(tmod(flen, 2) == 0, flen + 1, flen)')])
 fn('dsplib::(anon)::real_hilbert', H, serves=['C14', 'C05'], pure=True, ensures=[('length', 'result.len == h.len')])
 
@@ -52,7 +50,7 @@ fn('dsplib::HilbertFilter::HilbertFilter', H, sig='(const dsplib::arr_real &)', 
    extra_env=ENV, assigns=['this'], requires=[('size', 'And(h.len >= 3, h.len <= 2097152)')], may_throw=True,
    ensures=[('invariant', HF_OK), ('coeffs', 'same(_fir._h, h)')])
 fn('dsplib::HilbertFilter::HilbertFilter', H, sig='(int, dsplib::real_t)', key='HilbertFilter(flen,tw)', serves=['C14', 'C06', 'C05'],
-   extra_env=ENV, assigns=['this'], requires=[('size', 'And(flen >= 3, flen <= 1048576)')], may_throw=True,
+   extra_env=ENV, assigns=['this'], requires=[('size', 'And(flen >= 3, flen <= 10000)'), ('transition_width', 'And(tw > 0, tw <= 0.2)')], may_throw=True,
    ensures=[('invariant', HF_OK), ('length', '_fir._h.len == If(tmod(flen, 2) == 0, flen + 1, flen)')])
 
 fn('dsplib::HilbertFilter::process', H, serves=['C14', 'C06', 'C05'], extra_env=ENV, assigns=['this._fir', 'this._d'],
